@@ -288,6 +288,23 @@ func (p *GapMask) UnmarshalBinary(d []byte) error {
 	return nil
 }
 
+// store under err == nil, then hand back err itself
+type Lazy struct{ V [2]byte }
+
+func checkLen2(d []byte) error {
+	if len(d) != 2 {
+		return &fixErr{}
+	}
+	return nil
+}
+func (p *Lazy) UnmarshalBinary(d []byte) error {
+	err := checkLen2(d)
+	if err == nil {
+		copy(p.V[:], d)
+	}
+	return err
+}
+
 type Filled struct{ A, B, C, D, E [4]byte }
 
 func (p *Filled) UnmarshalBinary(data []byte) error {
@@ -618,6 +635,7 @@ func c10Fixture(c *Ctx) {
 		{"R5.overwrite|lorawan.Good2.UnmarshalBinary/N", fxOK},
 		{"R5.overwrite|lorawan.Good2.UnmarshalBinary/L", fxOK},
 		{"R5.overwrite|lorawan.Half.UnmarshalBinary/Arr", fxBad},
+		{"R5.overwrite|lorawan.Lazy.UnmarshalBinary/V", fxOK},
 		{"R5.overwrite|lorawan.Mask.UnmarshalBinary/M", fxOK},
 		{"R5.overwrite|lorawan.GapMask.UnmarshalBinary/M", fxBad},
 		{"R5.overwrite|lorawan.Filled.UnmarshalBinary/A", fxOK},
